@@ -47,8 +47,10 @@ func describeMismatch(got, want string, lang int) string {
 	return fmt.Sprintf("got %s want %s", preview(got), preview(want))
 }
 
+// encOp passes the entropy in a recycled caller-owned buffer for every second
+// case (decided by the content, so that it is reproducible).
 func encOp(c EntCase) plan.Op {
-	return plan.Op{Fn: "enc", L: int64(c.Lang), E: hx(c.Ent)}
+	return plan.Op{Fn: "enc", L: int64(c.Lang), E: hx(c.Ent), Arena: len(c.Ent) > 0 && c.Ent[len(c.Ent)-1]&1 == 0}
 }
 
 func checkC01(e *Env) {
